@@ -190,7 +190,8 @@ def run(args):
     info = C.std_coq_phase(run, ["engine"], TARGETS, PROP_FILE)
     broken = bool(run.failed_obligations())
     n = 500 if args.tier == "quick" and not broken else 6000
-    items = frame_stream(rnd, n) + long_frame_stream(rnd, 12 if args.tier == "quick" and not broken else 150)
+    # the long frames first: a search cut by its budget has then seen them (sampling thresholds only show at >= 1000 rows)
+    items = long_frame_stream(rnd, 12 if args.tier == "quick" and not broken else 150) + frame_stream(rnd, n)
     tss = streams.shipped_typesets()
     ctx = {"typesets": {"CompleteSet": tss["CompleteSet"], "StandardSet": tss["StandardSet"]}, "report": True}
     new, seen_known, kn = oracle.run_oracle(run, PROP, items, oracle_fn, ctx)
